@@ -279,7 +279,13 @@ func (e *Env) ident(name string) *Val {
 				return fv.loadPlace(e.st, p)
 			}
 			if r, ok := fv.regs[a]; ok {
-				return fv.loadPlace(e.st, fv.placeFromPointer(r))
+				v := fv.loadPlace(e.st, fv.placeFromPointer(r))
+				// the cell of an address-taken local holds a value of its type (a decoder may have
+				// overwritten it through the pointer: binary.Read(r, order, &cookie))
+				if _, _, isInt := intRange(v.Typ); isInt && v.T != "" {
+					fv.assumeType(v.T, v.Typ)
+				}
+				return v
 			}
 		}
 	}
@@ -886,6 +892,15 @@ func (e *Env) addrOf(x ast.Expr) string {
 		if n.Op == token.AND {
 			return e.addrOf(n.X)
 		}
+	case *ast.Ident:
+		// addr(buf) for an address-taken local (e.g. 'var buf bytes.Buffer'): the reference of its cell
+		if e.locals && e.fv.fn != nil {
+			if a := e.fv.findLocal(n.Name, e.at); a != nil && !e.fv.direct[a] {
+				if r, ok := e.fv.regs[a]; ok {
+					return r.T
+				}
+			}
+		}
 	case *ast.SelectorExpr:
 		base := e.tr(n.X)
 		if base.Typ != nil {
@@ -1050,6 +1065,17 @@ func (e *Env) specCall(sf *SpecFun, args []ast.Expr) *Val {
 			v := vals[i]
 			if pt := fv.g.resolveType(p.Type); pt != nil && (v.Typ == nil || isUntyped(v.Typ)) {
 				v = &Val{T: v.T, Typ: pt}
+			}
+			// a large argument term is bound to a fresh constant, so that nested spec functions (offsets computed
+			// from offsets, as in the reply-shape predicates) stay linear in size instead of multiplying
+			if len(v.T) > 120 && v.Tuple == nil && v.Typ != nil && !strings.Contains(v.T, "q!") && fv.fn != nil {
+				if _, isBasic := v.Typ.Underlying().(*types.Basic); isBasic {
+					if s := fv.sortOf(v.Typ); s == "Int" {
+						nv := *v
+						nv.T = fv.name("sa", s, v.T)
+						v = &nv
+					}
+				}
 			}
 			ne.vars[p.Name] = v
 		}
